@@ -300,25 +300,26 @@ def validate_shard(wd, prop, trace, scens, devs, verdict, tag, accept=None):
         if consumed is None:
             raise vlib.Infra("pool trace validation broke (exit %s): %s\n%s" % (r.exit, r.error, r.out[-3000:]))
         traces = list(split_traces(trace))
+        # a violated property was evaluated in the state AFTER the last consumed event; an unexplainable
+        # event is the first one that was not consumed
+        idx = max(consumed - 1, 0) if r.violated else consumed
         bad = None
         for start, lines in traces:
-            if start <= consumed < start + len(lines) or (consumed == start + len(lines) and r.violated):
+            if start <= idx < start + len(lines):
                 bad = (start, lines)
         if bad is None:
             bad = traces[-1]
         start, lines = bad
-        k = min(consumed - start, len(lines) - 1)
+        k = min(idx - start, len(lines) - 1)
         ev = json.loads(lines[k]); prev = json.loads(lines[max(k - 1, 0)])
         slim = lambda e: {a: b for a, b in e.items() if a in SLIM}
         if r.violated:
-            # the violated property was evaluated on the last consumed event
-            ev2 = prev if consumed - start >= 1 else ev
-            sig = "trace:%s:%s:%s" % (prop, ev2.get("op"), r.violated.split()[0])
-            desc = "TLC: property %s fails on a recorded execution at event %d %s" % (r.violated, k - 1, json.dumps(slim(ev2)))
+            sig = "trace:%s:%s:%s" % (prop, ev.get("op"), r.violated.split()[0])
+            desc = "TLC: property %s fails on a recorded execution at event %d %s" % (r.violated, k, json.dumps(slim(ev)))
         else:
             tip = 1
             for x in lines[:k]:
-                if x.startswith('{"op":"Done"') or '"op":"Done"' in x[:30]:
+                if '"op":"Done"' in x[:30]:
                     tip = json.loads(x).get("tip", tip)
             stale = ev.get("op") in ("AddSet", "TxSet") and ev.get("basis") not in (tip, None)
             sig = "trace:%s:%s:unexplained%s" % (prop, ev.get("op"), ":stale-basis" if stale else "")
